@@ -25,8 +25,7 @@ theorem validate_complete (X : Input) (stable exhaustive : Bool) (E : Exact X st
     | true => right; exact (c0b_iff X).mpr (E.exhaust rfl)
   · rw [cNeg_iff]
     intro v hv c hc
-    have h := round2_mono (E.nonneg v hv c hc)
-    unfold roundCmp
+    have h := roundCmp_nonneg (E.nonneg v hv c hc)
     linarith
   · rw [c2_iff]
     intro v hv
@@ -106,6 +105,122 @@ theorem validate_sound_margin (X : Input) (stable exhaustive : Bool)
     (B : BrokenBy (1 / 10) X stable exhaustive) : validate X stable exhaustive = false :=
   validate_sound_gap (1 / 10) (by norm_num) X stable exhaustive B
 
+/-! ### the repaired comparison (`round_cmp` rounds the difference): sharp tolerance, no boundary effect -/
+
+/-- sharp soundness: the validator's real tolerance is half a cent — a violation by more than 1/200 is rejected -/
+theorem validate_sound_half_cent (δ : Rat) (hδ : 1 / 200 < δ) (X : Input) (stable exhaustive : Bool)
+    (B : BrokenBy δ X stable exhaustive) : validate X stable exhaustive = false := by
+  rw [← Bool.not_eq_true]
+  intro hv
+  unfold validate at hv
+  simp only [Bool.and_eq_true, Bool.or_eq_true, Bool.not_eq_true'] at hv
+  obtain ⟨⟨⟨⟨⟨⟨⟨h0, hb⟩, h1⟩, hn⟩, h2⟩, h3⟩, h4⟩, h5⟩ := hv
+  cases B with
+  | c0a h => exact absurd ((c0a_iff X).mp h0) (not_le.mpr h)
+  | c0b he h =>
+    rcases hb with hb | hb
+    · rw [he] at hb; cases hb
+    · obtain ⟨c, hc, hle⟩ := h
+      exact (c0b_iff X).mp hb c hc hle
+  | c1 h =>
+    obtain ⟨v, hv, c, hc, ha, hp⟩ := h
+    exact hp ((c1_iff X).mp h1 v hv c hc ha)
+  | neg h =>
+    obtain ⟨v, hv, c, hc, hp⟩ := h
+    exact (cNeg_iff X).mp hn v hv c hc (roundCmp_neg_of_lt (by linarith))
+  | c2 h =>
+    obtain ⟨v, hv, hp⟩ := h
+    exact (c2_iff X).mp h2 v hv (roundCmp_pos_of_gt (by linarith))
+  | c3 h =>
+    obtain ⟨c, hc, hp⟩ := h
+    have hz := roundCmp_eq_zero_imp ((c3_iff X).mp h3 c hc)
+    linarith
+  | c4 h =>
+    obtain ⟨c, hc, hp⟩ := h
+    have hz := roundCmp_eq_zero_imp ((c4_iff X).mp h4 c hc)
+    rw [sub_zero] at hz
+    linarith
+  | c5 hs h =>
+    obtain ⟨c, hc, hp⟩ := h
+    rw [hs] at h5
+    exact (c5_iff X).mp h5 c hc (roundCmp_pos_of_gt (by linarith))
+  | s5 hs h =>
+    obtain ⟨c, hc, hp⟩ := h
+    rw [hs] at h5
+    exact (s5_iff X).mp h5 c hc (roundCmp_pos_of_gt (by linarith))
+
+/-- every tolerance-checked condition holds up to an error below `ε` (the exact-valued conditions C0a, C0b, C1 hold):
+    what a floating-point solver returns for a price system — each quantity a rounding error away from its exact value -/
+structure Within (ε : Rat) (X : Input) (stable exhaustive : Bool) : Prop where
+  feasible : X.total ≤ X.budget
+  exhaust : exhaustive = true → ∀ c ∈ X.NW, ¬ (X.total + X.cost c ≤ X.budget)
+  approved : ∀ v ∈ X.N, ∀ c ∈ X.C, v.app c = false → v.pay c = 0
+  nonneg : ∀ v ∈ X.N, ∀ c ∈ X.C, -ε < v.pay c
+  within : ∀ v ∈ X.N, spent X v < X.b + ε
+  selected : ∀ c ∈ X.W, |paidFor X c - X.cost c| < ε
+  unselected : ∀ c ∈ X.NW, |paidFor X c| < ε
+  noMoney : stable = false → ∀ c ∈ X.NW, leftoverOf X c < X.cost c + ε
+  stab : stable = true → ∀ c ∈ X.NW, stableOf X c < X.cost c + ε
+
+/-- an exact price system is within every positive tolerance -/
+theorem within_of_exact (ε : Rat) (hε : 0 < ε) (X : Input) (stable exhaustive : Bool) (E : Exact X stable exhaustive) :
+    Within ε X stable exhaustive :=
+  { feasible := E.feasible, exhaust := E.exhaust, approved := E.approved,
+    nonneg := fun v hv c hc => by linarith [E.nonneg v hv c hc],
+    within := fun v hv => by linarith [E.within v hv],
+    selected := fun c hc => by rw [E.selected c hc, sub_self, abs_zero]; exact hε,
+    unselected := fun c hc => by rw [E.unselected c hc, abs_zero]; exact hε,
+    noMoney := fun hs c hc => by linarith [E.noMoney hs c hc],
+    stab := fun hs c hc => by linarith [E.stab hs c hc] }
+
+/-- completeness with a tolerance, wherever the numbers lie: a pair that meets every condition up to an error below half
+    a cent is accepted.  (False for the former `round(a, 2) - round(b, 2)`: a voter budget 2.375 − 4·10⁻¹⁶ and a voter
+    spending 2.375 straddle the rounding boundary and compared as 2.37 < 2.38 — `straddle_former_formula` below.) -/
+theorem validate_complete_within (ε : Rat) (hε : ε ≤ 1 / 200) (X : Input) (stable exhaustive : Bool)
+    (E : Within ε X stable exhaustive) : validate X stable exhaustive = true := by
+  unfold validate
+  simp only [Bool.and_eq_true, Bool.or_eq_true, Bool.not_eq_true']
+  refine ⟨⟨⟨⟨⟨⟨⟨(c0a_iff X).mpr E.feasible, ?_⟩, (c1_iff X).mpr E.approved⟩, ?_⟩, ?_⟩, ?_⟩, ?_⟩, ?_⟩
+  · cases exhaustive with
+    | false => left; rfl
+    | true => right; exact (c0b_iff X).mpr (E.exhaust rfl)
+  · rw [cNeg_iff]
+    intro v hv c hc hneg
+    have := roundCmp_neg_imp hneg
+    linarith [E.nonneg v hv c hc]
+  · rw [c2_iff]
+    intro v hv hpos
+    have := roundCmp_pos_imp hpos
+    linarith [E.within v hv]
+  · rw [c3_iff]
+    intro c hc
+    exact roundCmp_eq_zero_of_close (lt_of_lt_of_le (E.selected c hc) hε)
+  · rw [c4_iff]
+    intro c hc
+    exact roundCmp_eq_zero_of_close (by rw [sub_zero]; exact lt_of_lt_of_le (E.unselected c hc) hε)
+  · cases stable with
+    | false =>
+      show c5 X = true
+      rw [c5_iff]
+      intro c hc hpos
+      have := roundCmp_pos_imp hpos
+      linarith [E.noMoney rfl c hc]
+    | true =>
+      show s5 X = true
+      rw [s5_iff]
+      intro c hc hpos
+      have := roundCmp_pos_imp hpos
+      linarith [E.stab rfl c hc]
+
+/-- the witness of the defect: 2.375 and 2.375 − 10⁻¹⁵ compare as equal … -/
+theorem straddle_equal : roundCmp (19 / 8) (19 / 8 - 1 / 10 ^ 15) = 0 ∧ roundCmp (19 / 8 - 1 / 10 ^ 15) (19 / 8) = 0 :=
+  ⟨roundCmp_eq_zero_of_close (by rw [abs_lt]; constructor <;> norm_num),
+   roundCmp_eq_zero_of_close (by rw [abs_lt]; constructor <;> norm_num)⟩
+
+/-- … whereas the former formula `round(a, 2) - round(b, 2)` told them apart by a whole cent -/
+theorem straddle_former_formula : round2 (19 / 8) - round2 (19 / 8 - 1 / 10 ^ 15) = 1 / 100 := by
+  decide +kernel
+
 /-- a stable price system is a price system -/
 theorem stable_implies_plain (X : Input) (exhaustive : Bool) (E : Exact X true exhaustive) :
     Exact X false exhaustive :=
@@ -126,8 +241,7 @@ theorem validate_stable_implies_plain (X : Input) (exhaustive : Bool) (h : valid
   rw [s5_iff] at h5
   intro c hc hpos
   apply h5 c hc
-  have := round2_mono (leftoverOf_le_stableOf X c)
-  unfold roundCmp at hpos ⊢
+  have := roundCmp_mono (leftoverOf_le_stableOf X c) (le_refl (X.cost c))
   linarith
 
 /-- an allocation is (stable-)priceable for the ballots `apps` when some voter budget and payment functions
@@ -181,5 +295,43 @@ example : Priceable [0, 1] (fun c => if c = 0 then 2 else 3) 4 [0] [fun c => c =
   ⟨1, (exInput 1 1 1).N, rfl, exInput_plain⟩
 
 example : (exInput 1 1 1).W.Sublist (exInput 1 1 1).C := by decide
+
+example : Within (1 / 200) (exInput 1 1 1) true true := within_of_exact _ (by norm_num) _ _ _ exInput_stable
+
+/-- a perturbed system (a voter budget 10⁻¹⁵ short, a payment 10⁻¹⁵ over) is within the tolerance, not exact -/
+example : Within (1 / 200) (exInput (1 - 1 / 10 ^ 15) 1 (1 + 1 / 10 ^ 15)) false true ∧
+    ¬ Exact (exInput (1 - 1 / 10 ^ 15) 1 (1 + 1 / 10 ^ 15)) false true := by
+  constructor
+  · refine ⟨?_, ?_, ?_, ?_, ?_, ?_, ?_, ?_, ?_⟩
+    · decide +kernel
+    · intro _; rw [← c0b_iff]; decide +kernel
+    · rw [← c1_iff]; decide +kernel
+    · intro v hv c hc
+      have : ∀ v ∈ (exInput (1 - 1 / 10 ^ 15) 1 (1 + 1 / 10 ^ 15)).N, ∀ c ∈ (exInput (1 - 1 / 10 ^ 15) 1 (1 + 1 / 10 ^ 15)).C,
+          0 ≤ v.pay c := by rw [← eNeg_iff]; decide +kernel
+      linarith [this v hv c hc]
+    · intro v hv
+      simp only [exInput, List.mem_cons, List.mem_nil_iff, or_false] at hv
+      rcases hv with rfl | rfl <;> norm_num [spent, exInput, sumOver]
+    · intro c hc
+      simp only [exInput, List.mem_cons, List.mem_nil_iff, or_false] at hc
+      subst hc
+      norm_num [paidFor, exInput, sumOver, abs_lt]
+    · intro c hc
+      have hc' : c = 1 := by
+        have : c ∈ [1] := hc
+        simpa using this
+      subst hc'
+      norm_num [paidFor, exInput, sumOver]
+    · intro _ c hc
+      have hc' : c = 1 := by
+        have : c ∈ [1] := hc
+        simpa using this
+      subst hc'
+      norm_num [leftoverOf, leftover, spent, exInput, sumOver]
+    · intro h; cases h
+  · intro E
+    have := E.within _ (List.mem_cons_of_mem _ List.mem_cons_self)
+    norm_num [spent, exInput, sumOver] at this
 
 end Pabu.Price
